@@ -76,7 +76,9 @@ const SHIM_METHODS: [&str; 31] = [
 ];
 
 // path calls renamed to free shim functions
-const SHIM_PATHS: [(&str, &str); 7] = [
+const SHIM_PATHS: [(&str, &str); 9] = [
+    ("IpAddr::from_str", "rws_ipaddr_from_str"),
+    ("SocketAddr::new", "rws_socketaddr_new"),
     ("env::var", "rws_env_var"),
     ("env::current_dir", "rws_env_current_dir"),
     ("String::from_utf8", "rws_string_from_utf8"),
@@ -838,6 +840,23 @@ fn main() {
                             found = true;
                         }
                         _ => {}
+                    }
+                }
+                if !found {
+                    missing.push(spec.clone());
+                }
+            }
+            "trait" => {
+                let mut found = false;
+                for it in &file.items {
+                    if let Item::Trait(t) = it {
+                        if t.ident == rest {
+                            let mut t = t.clone();
+                            t.attrs.clear();
+                            out_text.push(t.to_token_stream().to_string());
+                            out_meta.push(format!("{{\"kind\":\"trait\",\"name\":{},\"src\":{},\"line\":{}}}", json_str(rest), json_str(src_path), line_of(t.ident.span())));
+                            found = true;
+                        }
                     }
                 }
                 if !found {
